@@ -38,7 +38,7 @@ def lefts():
     out = list(LITERALS)
     for n in (1, 2, 3, 4):
         out.extend('.'.join(p) for p in itertools.product('ab', repeat=n))
-    out.extend(['c', 'a.c', 'c.a', 'a.b.c'])
+    out.extend(['c', 'a.c', 'c.a', 'a.b.c', ''])
     return out
 
 
